@@ -140,6 +140,11 @@ func seqProfile(prop string, cas int, tier string) Profile {
 			p.NearFull = false
 			p.DiskBlocks = 6000
 			p.JournalReject = true
+			// no gigabyte-sized sparse files here: the whole-tree walks materialise
+			// the holes they probe and would fill this small disk by themselves
+			// (a hole that can no longer be read is not a trace of the failed
+			// request - false alarm of thorough case 299)
+			p.Big = false
 		}
 		if tier == "thorough" && cas%200 == 9 {
 			// a nearly exhausted inode table (32 k objects: every full comparison is slow, so only a few cases)
